@@ -188,29 +188,39 @@ struct Cursor {
     ty: Ty,
     de: bool,
     res: bool,
+    plain: bool,
     rem: usize,
     depth: usize,
 }
 
 fn gen_stage(rng: &mut Rng, cur: &Cursor, sw: &Swarm, cfg: &GenCfg) -> Option<Stage> {
+    if cur.plain {
+        return Some(Stage::MapId);
+    }
+    if cfg.mix == Mix::Sinks && !(cur.res && cur.ty == Ty::Trk) && rng.chance(1, 4) {
+        return Some(Stage::Loose { m: 2 + rng.below(2) });
+    }
     if cur.res {
-        return Some(match rng.below(3) {
+        return Some(match rng.below(4) {
             0 => Stage::MapId,
             1 if cur.de => Stage::Rev,
+            2 => Stage::StepBy { k: 1 + rng.below(3) },
             _ => Stage::Take { k: gen_k(rng, cur.rem) },
         });
     }
     if cur.ty == Ty::Trk {
-        return Some(match rng.below(4) {
+        return Some(match rng.below(5) {
             0 => Stage::MapId,
             1 if cur.de => Stage::Rev,
+            4 => Stage::StepBy { k: 1 + rng.below(3) },
             2 => Stage::Shift { n: gen_lag(rng, cur.rem, false), v: Val::I(1000 + rng.below(10) as i64) },
             _ => Stage::Take { k: gen_k(rng, cur.rem) },
         });
     }
     let ty = cur.ty;
     for _ in 0..20 {
-        let st = match rng.below(20) {
+        let st = match rng.below(21) {
+            19 => Stage::StepBy { k: 1 + rng.below(3) },
             0 => Stage::Abs,
             1 => Stage::VAbs,
             2 | 3 | 4 => Stage::Shift {
@@ -291,6 +301,15 @@ fn apply_model(cur: &mut Cursor, st: &Stage) {
             cur.rem = cur.rem.min(*k);
             cur.de = false;
         },
+        Stage::StepBy { k } => {
+            cur.rem = cur.rem.div_ceil((*k).max(1));
+            cur.de = false;
+        },
+        Stage::Loose { m } => {
+            cur.rem -= cur.rem / (*m).max(2);
+            cur.de = false;
+            cur.plain = true;
+        },
         Stage::Remat { backend, op } => {
             let item = backend_item_ty(cur.ty, backend);
             cur.ty = op.out_ty(item).unwrap_or(cur.ty);
@@ -328,6 +347,17 @@ fn gen_buf_len(rng: &mut Rng, m: usize) -> usize {
 }
 
 fn gen_sink(rng: &mut Rng, cfg: &GenCfg, cur: &Cursor) -> Sink {
+    if cur.plain {
+        let c = *rng.pick(&[Container::Vec, Container::Deque, Container::Array1, Container::Sim]);
+        if cur.res {
+            return if cur.ty == Ty::Trk { Sink::TryPlain(Container::Vec) } else { Sink::TryPlain(c) };
+        }
+        return match rng.below(3) {
+            0 if cur.ty == Ty::OptF64 => Sink::OptCollect(c),
+            1 => Sink::WithLen(c),
+            _ => Sink::PlainVec1(c),
+        };
+    }
     if cur.res {
         if cur.ty == Ty::Trk {
             return Sink::TryTrustedToVec;
@@ -353,7 +383,15 @@ fn gen_sink(rng: &mut Rng, cfg: &GenCfg, cur: &Cursor) -> Sink {
         7 if cur.ty == Ty::OptF64 => Sink::OptCollect(if c == Container::Polars { Container::Vec } else { c }),
         7 => Sink::TrustedVec1(c),
         _ => Sink::Write {
-            buf: *rng.pick(&[BufKind::Slice, BufKind::Deque, BufKind::NdView, BufKind::Sim, BufKind::Sim, BufKind::OwnedVec]),
+            buf: *rng.pick(&[
+                BufKind::Slice,
+                BufKind::Deque,
+                BufKind::NdView,
+                BufKind::NdStrided,
+                BufKind::Sim,
+                BufKind::Sim,
+                BufKind::OwnedVec,
+            ]),
             len: gen_buf_len(rng, cur.rem),
         },
     }
@@ -405,6 +443,7 @@ pub fn gen_pipe(rng: &mut Rng, cfg: &GenCfg) -> Pipe {
         ty: root.out_ty(item_ty).unwrap_or(item_ty),
         de: root.double_ended(),
         res: fallible,
+        plain: false,
         rem: model_len_after_view(&root, len),
         depth: 1,
     };
@@ -424,9 +463,12 @@ pub fn gen_pipe(rng: &mut Rng, cfg: &GenCfg) -> Pipe {
         } else if roll < 58 && sw.nth && sw.partial {
             Op::Nth(rng.below(3))
         } else if sw.wrap && cur.depth < cfg.max_depth + if sinks { 0 } else { 0 } {
-            if sinks && roll < 90 {
+            if cur.plain {
+                Op::Wrap(Stage::MapId)
+            } else if sinks && roll < 90 {
                 // sinks mix: keep the pipeline thin
-                match rng.below(3) {
+                match rng.below(4) {
+                    3 if !(cur.res && cur.ty == Ty::Trk) => Op::Wrap(Stage::Loose { m: 2 + rng.below(2) }),
                     0 => Op::Wrap(Stage::MapId),
                     1 if cur.de => Op::Wrap(Stage::Rev),
                     _ => Op::Wrap(Stage::Take { k: gen_k(rng, cur.rem) }),
